@@ -34,12 +34,32 @@
                 polyline within 6 px of each other (C17_catmull_simplification_hausdorff);
        linear   distance 0 (C17_linear_exact).
 
+   Proved, IEEE binary32 against the EXACT curve of the same binary32 control
+   points (T17f; finite coordinates |c| <= 2^E; Proofs/VertexIEEE*.v):
+     linear   the computed vertices ARE the control points (C17_linear_ieee_exact);
+     Catmull  every computed vertex coordinate within E_cat E = 72 * 2^(E-24) of
+              the Catmull-Rom polynomial at k/50 resp. (k+1)/50 -- the rounding
+              of t = fl(k/50) included (C17_catmull_vertex_ieee); in the plane:
+              vertices within 3/2 E_cat E, chord points within S/8/2500 +
+              3/2 E_cat E of the curve point of the same parameter
+              (C17_catmull_span_hausdorff_ieee, C17_catmull_hausdorff_ieee; the
+              last span uses the COMPUTED phantom point fl(2 v3 - v2), which is
+              within 3 * 2^(E-24) of 2 v3 - v2: C17_catmull_phantom_point);
+     Bezier   for n * 2^E <= 2^22 (so the loop returns at depth <= 19, T01g):
+              every vertex emitted by the binary32 subdivision loop is finite
+              and within Kbez (n-1) + E_bez E (n-1) 19 of a point of the exact
+              Bezier curve; E_bez is explicit (pin_E_bez), e.g. <= 1/40 for cubic
+              segments with |c| <= 1024 (C17_bezier_vertices_ieee,
+              C17_bezier_vertices_ieee_depth for any depth bound d).
+
    NOT proved (the property stays PARTIAL for this reason only):
-     - the IEEE rounding error of the binary32 / binary64 evaluation (the
-       computed vertices vs. the vertices of the real instance), and libm's
-       error in sin / cos / acosf / atan2.  It is MEASURED by the oracle of
-       harness/src/c17.rs against curves evaluated in f64, with the exact
-       bounds above plus an explicit rounding slack;
+     - Bezier: the chords of the binary32 polyline and the covering of the
+       curve by them (the two other directions of C17_bezier_hausdorff) are
+       proved in exact arithmetic only; over binary32 only the vertices are;
+     - circular arcs: the IEEE rounding error of the binary32 / binary64
+       evaluation and libm's error in sin / cos / acosf / atan2.  It is
+       MEASURED by the oracle of harness/src/c17.rs against curves evaluated
+       in f64, with the exact bounds above plus an explicit rounding slack;
      - that the second control point of a perfect curve lies on the arc that
        is run through (the direction choice), and the angle of the last
        vertex: T17d has the end points under libm hypotheses only;
@@ -48,7 +68,10 @@
 From RM Require Import Model.ControlPoints Model.Curve Gen.Generated Proofs.BezierRefine Proofs.PathFacts
   Proofs.CatmullFacts Proofs.ArcExact Proofs.DeCasteljau Proofs.BezierTermination Proofs.SimplifyExact
   Proofs.HausdorffPlane Proofs.HausdorffArc Proofs.HausdorffBezierCore Proofs.HausdorffBezier
-  Proofs.HausdorffCatmull Proofs.HausdorffCatmullDeriv Proofs.HausdorffSimplify.
+  Proofs.HausdorffCatmull Proofs.HausdorffCatmullDeriv Proofs.HausdorffSimplify
+  Proofs.BezierIEEE Proofs.BezierIEEETight Proofs.VertexIEEEBase Proofs.VertexIEEECatmull Proofs.VertexIEEECatmullPath
+  Proofs.VertexIEEEBezierScalar Proofs.VertexIEEEBezier.
+From Flocq Require Import Core BinarySingleNaN.
 From Coq Require Import Reals.
 Open Scope Z_scope.
 
@@ -530,3 +553,207 @@ Proof. exact simplify_example. Qed.
 Theorem C17_linear_exact : forall l : list (R * R), HD 0 l l.
 Proof. intros l. apply HD_refl. apply Rle_refl. Qed.
 Print Assumptions C17_linear_exact.
+
+(* ================================================================== *)
+(* T17f [IEEE binary32 vs the exact curve of the same control points]   *)
+(* ================================================================== *)
+
+(* hypotheses: finite coordinates of magnitude <= 2^E *)
+Example pin_point_ok : forall E p,
+  point_ok E p <-> ((is_finite (px p) = true /\ (Rabs (B2R (px p)) <= bpow radix2 E)%R) /\
+                    (is_finite (py p) = true /\ (Rabs (B2R (py p)) <= bpow radix2 E)%R)).
+Proof. intros. reflexivity. Qed.
+Example pin_coordU : forall E k x,
+  coordU E k x <-> (is_finite x = true /\ (Rabs (B2R x) <= k * bpow radix2 E)%R).
+Proof. intros. reflexivity. Qed.
+Example pin_posR : forall p, posR p = (B2R (px p), B2R (py p)).
+Proof. intros. reflexivity. Qed.
+
+(* ---------- linear ---------- *)
+
+(* the computed sub-path is the list of control points itself (IEEE, every
+   input): the real points of the computed vertices are the real control
+   points, distance 0 *)
+Theorem C17_linear_ieee_exact :
+  forall (B : Type) (bezier : list Pos -> list Pos -> B -> outcome (list Pos * B)) lm osu path sub opt b,
+  calculate_subpath bezier lm osu path sub Linear opt b = Done (path ++ sub, opt, b) /\
+  HD 0 (map posR sub) (map posR sub).
+Proof. intros. split; [apply @linear_copies|]. apply HD_refl. apply Rle_refl. Qed.
+Print Assumptions C17_linear_ieee_exact.
+
+(* ---------- Catmull ---------- *)
+
+Example pin_E_cat : forall E, E_cat E = (72 * bpow radix2 (E - 24))%R.
+Proof. reflexivity. Qed.
+
+(* one coordinate of one vertex: control values v1 v2 v3 within 2^E, v4 within
+   3 * 2^E (it may be the phantom point), t any binary32 number of [0, 1]
+   within 2^-25 of the intended parameter q *)
+Theorem C17_catmull_vertex_ieee :
+  forall E v1 v2 v3 v4 t (q : R), 0 <= E <= 100 ->
+  coordU E 1 v1 -> coordU E 1 v2 -> coordU E 1 v3 -> coordU E 3 v4 ->
+  is_finite t = true -> (0 <= B2R t <= 1)%R -> (0 <= q <= 1)%R -> (Rabs (B2R t - q) <= bpow radix2 (-25))%R ->
+  is_finite (catmull_eval (catmull_coord v1 v2 v3 v4) t) = true /\
+  (Rabs (B2R (catmull_eval (catmull_coord v1 v2 v3 v4) t)
+         - catmull_rom (B2R v1) (B2R v2) (B2R v3) (B2R v4) q) <= E_cat E)%R.
+Proof. exact catmull_vertex_coord. Qed.
+Print Assumptions C17_catmull_vertex_ieee.
+
+(* the parameters the code uses: fl(c / 50) and fl(fl(c + 1) / 50) *)
+Theorem C17_catmull_parameters_ieee :
+  forall c, (c < 50)%nat ->
+  let ta := S.div (S.of_Z (Z.of_nat c)) catmull_detail_f in
+  let tb := S.div (S.add (S.of_Z (Z.of_nat c)) S.one) catmull_detail_f in
+  (is_finite ta = true /\ (0 <= B2R ta <= 1)%R /\ (Rabs (B2R ta - INR c / 50) <= bpow radix2 (-25))%R) /\
+  (is_finite tb = true /\ (0 <= B2R tb <= 1)%R /\ (Rabs (B2R tb - (INR c + 1) / 50) <= bpow radix2 (-25))%R).
+Proof. intros c Hc. split; [apply catmull_param_a|apply catmull_param_b]; exact Hc. Qed.
+Print Assumptions C17_catmull_parameters_ieee.
+
+Example pin_vertex_near : forall e p q,
+  vertex_near e p q <->
+  ((is_finite (px p) = true /\ is_finite (py p) = true) /\
+   (Rabs (B2R (px p) - fst q) <= e)%R /\ (Rabs (B2R (py p) - snd q) <= e)%R).
+Proof. intros. reflexivity. Qed.
+
+(* the 100 vertices of one span, as computed by the model *)
+Theorem C17_catmull_subpath_ieee :
+  forall E v1 v2 v3 v4, 0 <= E <= 100 ->
+  pointU E 1 v1 -> pointU E 1 v2 -> pointU E 1 v3 -> pointU E 3 v4 ->
+  let path := catmull_subpath v1 v2 v3 v4 in
+  length path = 100%nat /\
+  forall k, (k < 50)%nat ->
+    vertex_near (E_cat E) (nth (2 * k) path pos0) (crP (posR v1) (posR v2) (posR v3) (posR v4) (INR k / 50)) /\
+    vertex_near (E_cat E) (nth (S (2 * k)) path pos0) (crP (posR v1) (posR v2) (posR v3) (posR v4) ((INR k + 1) / 50)).
+Proof. exact catmull_subpath_ieee. Qed.
+Print Assumptions C17_catmull_subpath_ieee.
+
+Example pin_span_follows_ieee : forall bound err v1 v2 v3 v4 path,
+  span_follows_ieee bound err v1 v2 v3 v4 path <->
+  (length path = 100%nat /\
+   forall k, (k < 50)%nat ->
+     (dist2 (crP v1 v2 v3 v4 (INR k / 50)) (nth (2 * k) path (0, 0)%R) <= err)%R /\
+     (dist2 (crP v1 v2 v3 v4 ((INR k + 1) / 50)) (nth (S (2 * k)) path (0, 0)%R) <= err)%R /\
+     forall s, (0 <= s <= 1)%R ->
+       (dist2 (crP v1 v2 v3 v4 ((INR k + s) / 50))
+              (lerp2 (nth (2 * k) path (0, 0)%R) (nth (S (2 * k)) path (0, 0)%R) s) <= bound + err)%R).
+Proof. intros. reflexivity. Qed.
+
+(* one span: the computed polyline against the exact curve (the chords'
+   parameters cover [0, 1]: C17_catmull_chords_cover_the_span) *)
+Theorem C17_catmull_span_hausdorff_ieee :
+  forall E v1 v2 v3 v4 (S : R), 0 <= E <= 100 ->
+  pointU E 1 v1 -> pointU E 1 v2 -> pointU E 1 v3 -> pointU E 3 v4 ->
+  (0 <= S)%R -> second_le S (posR v1) (posR v2) (posR v3) (posR v4) ->
+  span_follows_ieee (S / 8 / 2500) (3 / 2 * E_cat E) (posR v1) (posR v2) (posR v3) (posR v4)
+                    (map posR (catmull_subpath v1 v2 v3 v4)).
+Proof. exact catmull_span_hausdorff_ieee. Qed.
+Print Assumptions C17_catmull_span_hausdorff_ieee.
+
+(* the phantom fourth point of the last span, as computed *)
+Theorem C17_catmull_phantom_point :
+  forall E a b, 0 <= E <= 100 -> coord_ok E a -> coord_ok E b ->
+  coordU E 3 (S.sub (S.mul a s2) b) /\
+  (Rabs (B2R (S.sub (S.mul a s2) b) - (B2R a * 2 - B2R b)) <= 3 * bpow radix2 (E - 24))%R.
+Proof. exact phantom_coord. Qed.
+Print Assumptions C17_catmull_phantom_point.
+
+(* the whole segment: the model's output is the concatenation of the spans'
+   paths; every span (control points: the binary32 points, the last one with
+   the computed phantom point) follows its exact curve within
+   3 L / 10000 + 3/2 E_cat E, L bounding the edges of the spans *)
+Theorem C17_catmull_hausdorff_ieee :
+  forall E points cat (L : R), 0 <= E <= 100 -> Forall (point_ok E) points ->
+  approximate_catmull points = Done cat -> (0 <= L)%R ->
+  let spans := catmull_spans phantom32 (map pair_of points) in
+  Forall (fun sp => span_ok L (spanR sp)) spans ->
+  cat = flat_map span_path32 spans /\
+  Forall (fun sp => let '(v1, v2, v3, v4) := spanR sp in
+            span_follows_ieee (3 * L / 10000) (3 / 2 * E_cat E) v1 v2 v3 v4 (map posR (span_path32 sp))) spans.
+Proof. exact catmull_hausdorff_ieee. Qed.
+Print Assumptions C17_catmull_hausdorff_ieee.
+
+(* the hypotheses are satisfiable: (0,0) (100,50) (200,0), E = 8 *)
+Example C17_catmull_ieee_nonvacuous :
+  map dump_pos ex_cat = [[0; 0]; [1120403456; 1112014848]; [1128792064; 0]] /\
+  Forall (point_ok 8) ex_cat /\ exists cat, approximate_catmull ex_cat = Done cat.
+Proof. split; [exact ex_cat_dump|]. split; [exact ex_cat_ok|exact ex_cat_runs]. Qed.
+
+(* ---------- Bezier / B-spline ---------- *)
+
+Example pin_uE : forall E, uE E = (bpow radix2 (E - 25) + bpow radix2 (-150))%R.
+Proof. reflexivity. Qed.
+
+(* the rounding allowance: m = degree, k = depth of the subdivision tree *)
+Example pin_E_bez : forall E m k,
+  E_bez E m k =
+  (INR m * (2 * INR m - 1) / 8 * (bpow radix2 (-20) + 3 / 2 * (bpow radix2 (E - 22) + 4 * (INR k * (INR m * uE E))))
+   + 3 / 2 * (INR k * (INR m * uE E) + INR m * uE E + (bpow radix2 (E - 24) + bpow radix2 (-150))))%R.
+Proof. reflexivity. Qed.
+
+Example pin_bez_vertex_ok : forall E points m k p,
+  bez_vertex_ok E points m k p <->
+  ((is_finite (px p) = true /\ is_finite (py p) = true) /\
+   exists t : R, (0 <= t <= 1)%R /\ (dist2 (Bez (map posR points) t) (posR p) <= Kbez m + E_bez E m k)%R).
+Proof. intros. reflexivity. Qed.
+
+(* every vertex the binary32 loop emits (whatever the fuel, whenever it
+   returns) is within Kbez (n-1) + E_bez E (n-1) d of the exact curve, d any
+   bound on the depth of the binary32 subdivision tree *)
+Theorem C17_bezier_vertices_ieee_depth :
+  forall E points n' d path fuel path', 0 <= E <= 40 ->
+  length points = S (S n') -> Forall (point_ok E) points -> within32 d points ->
+  approximate_bezier_L1 fuel path points tt = Done (path', tt) ->
+  exists new, path' = path ++ new ++ [last points pos0] /\
+    Forall (bez_vertex_ok E points (S n') d) new.
+Proof. exact bezier_vertices_ieee_depth. Qed.
+Print Assumptions C17_bezier_vertices_ieee_depth.
+
+(* n * 2^E <= 2^22: depth 19 (T01g, C01) *)
+Theorem C17_bezier_vertices_ieee :
+  forall E points n' path fuel path', 0 <= E -> Z.of_nat (length points) * 2 ^ E <= 2 ^ 22 ->
+  length points = S (S n') -> Forall (point_ok E) points ->
+  approximate_bezier_L1 fuel path points tt = Done (path', tt) ->
+  exists new, path' = path ++ new ++ [last points pos0] /\
+    Forall (bez_vertex_ok E points (S n') 19) new.
+Proof. exact bezier_vertices_ieee. Qed.
+Print Assumptions C17_bezier_vertices_ieee.
+
+(* the last vertex (pushed after the loop) is the last control point: the
+   curve's end point, distance 0 *)
+Theorem C17_bezier_last_vertex_ieee :
+  forall points n', length points = S n' ->
+  Bez (map posR points) 1 = posR (last points pos0).
+Proof. exact bez_last_posR. Qed.
+Print Assumptions C17_bezier_last_vertex_ieee.
+
+(* the pieces *)
+Theorem C17_bezier_emitted_coordinate_ieee :
+  forall E p c n, 0 <= E <= 100 -> coord_ok E p -> coord_ok E c -> coord_ok E n ->
+  coord_ok E (tri1 p c n) /\
+  (Rabs (B2R (tri1 p c n) - (B2R p + 2 * B2R c + B2R n) / 4) <= bpow radix2 (E - 24) + bpow radix2 (-150))%R.
+Proof. exact tri1_spec. Qed.
+Print Assumptions C17_bezier_emitted_coordinate_ieee.
+
+Theorem C17_bezier_flat_test_ieee_converse :
+  forall E p c n, 0 <= E <= 40 -> point_ok E p -> point_ok E c -> point_ok E n ->
+  far32 p c n = false ->
+  exists X Y : R,
+    (Rabs (X - (B2R (px p) - 2 * B2R (px c) + B2R (px n))) <= bpow radix2 (E - 22))%R /\
+    (Rabs (Y - (B2R (py p) - 2 * B2R (py c) + B2R (py n))) <= bpow radix2 (E - 22))%R /\
+    (X * X + Y * Y <= 1 / 4 + bpow radix2 (-20))%R.
+Proof. exact far32_false_inv. Qed.
+Print Assumptions C17_bezier_flat_test_ieee_converse.
+
+(* the size of the allowance: cubic segments with |c| <= 1024 *)
+Example C17_E_bez_cubic_1024 : (E_bez 10 3 19 <= 1 / 40)%R.
+Proof. exact E_bez_10_3_19. Qed.
+
+(* the hypotheses are satisfiable: W's example segment
+   `B|131072:-131072|-131072:131072|131072:131072` (E = 17, n = 4) *)
+Example C17_bezier_ieee_nonvacuous :
+  map dump_pos ex_seg = [[0; 0]; [1207959552; 3355443200]; [3355443200; 1207959552]; [1207959552; 1207959552]] /\
+  Forall (point_ok 17) ex_seg /\ Z.of_nat (length ex_seg) * 2 ^ 17 <= 2 ^ 22 /\
+  forall path, exists path', approximate_bezier_L1 bezier_fuel path ex_seg tt = Done (path', tt).
+Proof.
+  split; [exact ex_seg_dump|]. split; [exact ex_seg_ok|]. split; [vm_compute; discriminate|exact ex_seg_terminates_tight].
+Qed.
